@@ -6,7 +6,7 @@
    the generated cases files.
 
    [exotic] marks the separate stream of binding names the model does not speak about
-   (blanks, glob characters, a typed binding literally named "onStartup", ...): those
+   (blanks, glob characters, quotes, ...): those
    cases are never judged; how many of them disagree with the model / fail the
    predicate is reported through trigger_XMODEL / trigger_XSPEC for triage. *)
 From Verif Require Import Common C19_Model C19_Spec.
@@ -57,6 +57,7 @@ Definition trigger_XMODEL (cs : list case) : list N :=
   indices_where (fun c => k_exotic c && negb (agrees c)) cs.
 Definition trigger_XSPEC (cs : list case) : list N :=
   indices_where (fun c => k_exotic c && negb (spec_ok c)) cs.
-(* cases inside the trigger T of the candidate finding "reserved binding name" *)
-Definition trigger_RESERVED (cs : list case) : list N :=
+(* cases inside the trigger T of the recorded finding F20 (reserved binding name): these
+   are judged like any other case; a violation among them is excused by the finding *)
+Definition trigger_F20 (cs : list case) : list N :=
   indices_where (fun c => T (input_of c)) cs.
